@@ -20,6 +20,12 @@ def cases(seed, tier, broken=()):
                     "standardize": bool(i % 2), "use_coslat": bool((i // 2) % 2), "weights": bool((i // 4) % 2), "names": bool(i % 3 == 0),
                     "nb": int(rng.choice([1, 2, 3, 5, 10, 50])) if tier != "quick" else int(rng.choice([1, 2, 3, 5])),
                     "bseed": [0, 1, 7, 42, int(rng.integers(0, 2**31))][i % 5]})
+    # short records with many modes: a resample of n samples holds about 0.63 n DISTINCT ones, fewer than the modes asked for; every member
+    # still has the model's number of modes (the trailing ones with zero variance) and no NaN
+    for i in range({"quick": 6, "thorough": 40, "search": 20}[tier]):
+        nn, kk = [(8, 7), (10, 6), (9, 8), (12, 9)][i % 4]
+        out.append({"mseed": int(rng.integers(0, 2**31)), "struct": "DA", "k": kk, "n": nn, "standardize": False, "use_coslat": False, "weights": False,
+                    "names": False, "nb": 6, "bseed": [0, 1, 7][i % 3]})
     return out
 
 
@@ -30,7 +36,7 @@ def nontrivial_key(case, info):
 def run(case):
     F = []
     rng = np.random.default_rng(case["mseed"])
-    n = 40
+    n = case.get("n", 40)
     X = field(rng, n, 3, 4, False, off=2.0)
     st = case["struct"]
     dim = "time"
@@ -118,7 +124,16 @@ def run(case):
         if np.any(ev[i] < 0) or np.any(np.diff(ev[i]) > 1e-10 * ev[i].max()) or ev[i].sum() > tv[i] * (1 + 1e-9):
             F.append(Finding("oracle", "member_variances", cc, f"member {i+1}: variances {ev[i]} not non-negative/descending/below the total {tv[i]}"))
             break
-        if gap:
+        # (a resample with fewer distinct samples than modes has zero trailing variances: their directions are arbitrary, the claim is
+        # about the directions that carry variance)
+        r_eff = int(min(k, np.count_nonzero(sv > 1e-9 * sv[0])))
+        if r_eff < k and r_eff >= 1:
+            Vt = np.linalg.svd(Rc, full_matrices=False)[2][:r_eff].T
+            Cr = Ci[:, :r_eff]
+            if np.abs(Cr @ Cr.conj().T - Vt @ Vt.T).max() > 1e-5:
+                F.append(Finding("oracle", "member_is_eof_of_resample", cc + "|components|rank-deficient-resample", f"member {i+1}: the {r_eff} components carrying variance do not span the row space of the resample"))
+                break
+        elif gap:
             # components span the leading subspace of the resample covariance
             Vt = np.linalg.svd(Rc, full_matrices=False)[2][:k].T
             if np.abs(Ci @ Ci.T - Vt @ Vt.T).max() > 1e-5:
